@@ -15,9 +15,9 @@ Proof.
   intros HI He Hpc Hs. unfold tau in Hs. rewrite Hpc in Hs.
   destruct (elig (rq i)) eqn:Hel.
   - destruct (tbl s (rkey (rq i))) as [j|] eqn:Ht; start Hs.
-    + Time solve_inv HI.
-    + Time solve_inv HI.
-  - start Hs. Time solve_inv HI.
+    + solve_inv HI.
+    + solve_inv HI.
+  - start Hs. solve_inv HI.
 Qed.
 
 Lemma inv_tau_y1 s i s' :
@@ -28,7 +28,6 @@ Proof.
   assert (N : j <> i).
   { intro; subst. pose proof (c_lead _ _ HI i Hr) as [_ L]. rewrite Hpc in L. discriminate. }
   pose proof (c_foll _ _ HI i j Hr N) as (Hj & _).
-  Time solve_inv HI.
-  all: idtac "Y1 REMAINING". Show.
+  solve_inv HI.
 Qed.
 End S.
